@@ -251,6 +251,30 @@ def register(reg):
         raises={}, replay=replay_dec,
     )
 
+    # ---- _parse_headers (body; next_event uses the summary below): a header pair is produced only from a line that is not
+    # blank once stripped, from the stripped line, split at its FIRST colon, both halves stripped.  The unfolding regex and
+    # splitlines are abstract (unknown pieces): what is proved is the per-line step, as obligations at the append.
+    CONT = reg.model("ContinuationPattern", fields={})
+    reg.contract("model:ContinuationPattern.sub", prop="C01,C02", trusted=True, param_names=["self", "repl", "data"], returns="bytes",
+                 modifies=[], note="HEADER_CONTINUATION_RE.sub(b' ', data): some bytes (header unfolding: bounded tier)")
+    reg.overrides["werkzeug/sansio/multipart.py:HEADER_CONTINUATION_RE"] = lambda interp: interp.fresh(("obj", CONT), "HEADER_CONTINUATION_RE")
+
+    def _headers_from_pairs(interp, cv, args, kwargs, node):
+        from pyvc.values import VObj as _VO
+        return _VO("HeadersRec", {"pairs": args[0] if args else interp.const([])})
+    MDH = reg.model("MPDecoderH", cls="werkzeug/sansio/multipart.py:MultipartDecoder", fields={})
+    reg.contract(
+        "werkzeug/sansio/multipart.py:MultipartDecoder._parse_headers#verify", prop="C01,C02", self_model=MDH,
+        params={"data": "bytes"}, modifies=[],
+        ghost_after={"headers.append((name.strip(), value.strip()))": [
+            "assert len(line) > 0 and line == line.strip()",
+            "assert name == line.decode().partition(':')[0] and value == line.decode().partition(':')[2]"]},
+        ensures=["True"],
+        raises={"UnicodeDecodeError": "True", "ValueError": "True"},
+        loops={0: {"types": {"headers": "List[Tuple[str, str]]", "line": "bytes", "name": "str", "value": "str", "_": "str"},
+                   "inv": ["True"]}},
+    )
+
     # ---- next_event: one step of the state machine
     reg.contract("werkzeug/sansio/multipart.py:MultipartDecoder._parse_headers", prop=P, trusted=True,
                  params={"data": "bytearray"}, returns="Dict[str, str]",
